@@ -45,6 +45,7 @@ RULES = {
     "P4": rules_state.rule_P4,
     "T2": rules_types.rule_T2,
     "A2": rules_lemma.rule_A2,
+    "G3c": rules_slice.rule_G3c,
 }
 
 SELFTESTS = {"T1": rules_types.selftest_T1}
@@ -78,7 +79,7 @@ PROPS = {
     "C04": {
         "id": "C04",
         "title": "Slices select and assign exactly the numpy-designated elements",
-        "rules": ["G5", "G3", "G3b", "G4", "E1", "T1", "D2"],
+        "rules": ["G5", "G3", "G3b", "G3c", "G4", "E1", "T1", "D2"],
         "clause": "slice creation rejects by exception every out-of-range start/stop/step combination of the statement; every "
                   "multi-element slice assignment is count-guarded before the first write; no forward copy primitive runs on "
                   "possibly-aliased storage; a slice copy carries the source's index state; materialising a slice cannot "
